@@ -35,7 +35,7 @@ RULE = ("every case of the TLA+ enumeration -- clip evaluations: 0..2 annotation
         "(none | p1 | p2 | foreign) x (none | a1 | a2 | foreign), also with annotations / predictions that wrap one and the same "
         "sound event (a1 and a2, a foreign annotation and a1, all three) and with predictions that carry the uuid of an "
         "annotation x clip pairing (same object, equal copy, later-enriched copies of the same uuid, other clip, other "
-        "recording); single matches; annotation projects: task x annotation membership over 3 clips x later-enriched copies of a clip on the task / annotation side; clips: 5 x 5 start/end "
+        "recording); single matches; annotation projects: every ordered selection of 3 clips as tasks x every sequence of <= 3 annotated clips (any order, a clip annotated twice) x later-enriched copies of a clip on the task / annotation side; clips: 5 x 5 start/end "
         "values x number encodings (numbers, numeric strings, mixed) x 2 units; scores: 10 values around 0 and 1 (+ absent) x "
         "6 bounded fields (+ Evaluation.score, observed only) x number/string -- each built through 4 paths; "
         "non-trivial = every case (each is a distinct arrangement); the evidence counts valid and invalid ones")
@@ -313,7 +313,8 @@ def _match(case):
 
 # ================================================================= kind "project": annotation projects
 def _project(case):
-    tasks, anns = case["task"], case["ann"]
+    tseq, aseq = case["tseq"], case["aseq"]     # clips (1..3) of the tasks / of the clip annotations, in listed order;
+    #                                             a clip may occur twice in aseq (two clip annotations of one clip)
     enr = case.get("enr", [0, 0, 0])       # the task's and the annotation's copies of clip k differ in non-identity content
     clip_ids = [0x10, 0x11, 0x12]
 
@@ -325,10 +326,10 @@ def _project(case):
                 "ann": [idx.get(a.clip.uuid, 9) for a in p.clip_annotations]}
 
     def parts():
-        cas = [data.ClipAnnotation(uuid=U(0x60 + k), clip=_clip(clip_ids[k], enriched=(2 if enr[k] == 2 else 0)), created_on=T0)
-               for k in range(3) if anns[k]]
-        tks = [data.AnnotationTask(uuid=U(0x90 + k), clip=_clip(clip_ids[k], enriched=(1 if enr[k] == 1 else 0)), created_on=T0)
-               for k in range(3) if tasks[k]]
+        cas = [data.ClipAnnotation(uuid=U(0x60 + i), clip=_clip(clip_ids[k - 1], enriched=(2 if enr[k - 1] == 2 else 0)),
+                                   created_on=T0) for i, k in enumerate(aseq)]
+        tks = [data.AnnotationTask(uuid=U(0x90 + i), clip=_clip(clip_ids[k - 1], enriched=(1 if enr[k - 1] == 1 else 0)),
+                                   created_on=T0) for i, k in enumerate(tseq)]
         return cas, tks
 
     def as_dict(mode):
@@ -340,10 +341,10 @@ def _project(case):
         doc = {"uuid": str(U(0x81)), "collection_type": "annotation_project", "created_on": T0S, "name": "p",
                "recordings": [REC_DOC],
                "clips": [{"uuid": str(U(c)), "recording": str(U(1)), "start_time": 0.0, "end_time": 10.0} for c in clip_ids],
-               "clip_annotations": [{"uuid": str(U(0x60 + k)), "clip": str(U(clip_ids[k])), "created_on": T0S}
-                                    for k in range(3) if anns[k]],
-               "tasks": [{"uuid": str(U(0x90 + k)), "clip": str(U(clip_ids[k])), "created_on": T0S}
-                         for k in range(3) if tasks[k]]}
+               "clip_annotations": [{"uuid": str(U(0x60 + i)), "clip": str(U(clip_ids[k - 1])), "created_on": T0S}
+                                    for i, k in enumerate(aseq)],
+               "tasks": [{"uuid": str(U(0x90 + i)), "clip": str(U(clip_ids[k - 1])), "created_on": T0S}
+                         for i, k in enumerate(tseq)]}
         p = _load_doc(_aoef(doc))
         if not isinstance(p, data.AnnotationProject):
             raise LookupError("not an annotation project")
@@ -618,9 +619,10 @@ MANIFEST = {
              "store; MC_SchemaRel.tla transcribes the validators of soundevent.data step by step (before/after mode, list-vs-set "
              "duplicate tests, set comparisons, ge/le with NaN) and TLC proves accepted <=> Valid for every enumerated "
              "arrangement -- including annotations / predictions that wrap one and the same sound event, predictions that carry "
-             "an annotation's uuid, and later-enriched copies of a clip (same uuid) -- and path (the as-found before-mode clip "
-             "validator, a validator keyed on the wrapped sound event, a merged uuid pool and deep clip equality are kept as "
-             "controls with TLC's counterexamples); "
+             "an annotation's uuid, later-enriched copies of a clip (same uuid), and projects whose tasks and clip annotations are listed in every order with "
+             "clips annotated twice -- and path (the as-found before-mode clip "
+             "validator, a validator keyed on the wrapped sound event, a merged uuid pool, deep clip equality and a single-pass (generator) task "
+             "lookup are kept as controls with TLC's counterexamples); "
              "every case is then built through the constructor, model_validate, model_validate_json (numbers also as numeric "
              "strings) and a hand-written AOEF document loaded with io.load, and TLC validates ConstructIffValid, PathsAgree "
              "and StoredWithinBounds on what was built and stored. Bounded-exhaustive plus random larger clip evaluations."),
